@@ -92,6 +92,65 @@ def _run_group(args):
     return out
 
 
+def _run_discr(args):
+    """one discriminated format family in one fresh universe, for one ORDER of first use of the variant under the format:
+    'dispatch' (Base.from_<format> first) or 'holder' (a holder nesting the variant first, then the dispatch)"""
+    fname, base, var, hold, v, doc_exp, order = args
+    from harness.terms import Registry, abstract_value, concretize_type, concretize_value
+    out = {"n": 0, "mism": []}
+    to_m, from_m, Enc, Dec, parse = _fmt(fname)
+    reg = Registry()
+    rec = {"T": var, "format": fname, "input": v, "order": order, "family": "discriminated", "base": base, "hold": hold, "doc": doc_exp}
+    try:
+        B = concretize_type(base, reg)
+        V = concretize_type(var, reg)
+        x = concretize_value(v, reg)
+        steps = ["dispatch", "holder"] if order == "dispatch" else ["holder", "dispatch"]
+        for st in steps:
+            out["n"] += 1
+            try:
+                if st == "dispatch":
+                    data = getattr(x, to_m)()
+                    parsed = abstract_value(parse(data), reg)
+                    if not wire_match(eqform(canon(doc_exp)), eqform(parsed)):
+                        out["mism"].append({**rec, "clause": "format-document", "expected": doc_exp, "actual": parsed})
+                    y = getattr(B, from_m)(data)
+                    back = abstract_value(y, reg)
+                    if type(y) is not V or not terms_pyeq(back, v):
+                        out["mism"].append({**rec, "clause": "format-roundtrip", "step": st, "expected": ["ok", v], "actual": ["ok", back]})
+                else:
+                    H = concretize_type(hold, reg)
+                    hx = H(b=x, bs=[x])
+                    hy = getattr(H, from_m)(getattr(hx, to_m)())
+                    back = abstract_value(hy.b, reg)
+                    if type(hy.b) is not V or not terms_pyeq(back, v) or hy != hx:
+                        out["mism"].append({**rec, "clause": "format-roundtrip", "step": st, "expected": ["ok", v], "actual": ["ok", back]})
+            except Exception as e:  # noqa: BLE001
+                out["mism"].append({**rec, "clause": "format-roundtrip", "step": st, "expected": ["ok", v], "actual": ["exc", type(e).__name__, str(e)[:200]]})
+    except Exception as e:  # noqa: BLE001
+        out["mism"].append({**rec, "clause": "build", "actual": ["exc", type(e).__name__, str(e)[:200]]})
+    finally:
+        reg.close()
+    return out
+
+
+def discr_families(rep, printed, clause_map=None):
+    """discriminated format families (MC_C04 dfvec records) in both orders of first use; clause_map renames clauses for other properties"""
+    jobs = [(r[1], r[2], r[3], r[4], r[5], r[6], order) for r in printed if r[0] == "dfvec" for order in ("dispatch", "holder")]
+    ctx = mp.get_context("fork")
+    with ctx.Pool(16) as pool:
+        for out in pool.imap_unordered(_run_discr, jobs, chunksize=2):
+            rep.count(out["n"])
+            rep.cov["traces_validated_against_impl"] += out["n"]
+            for m in out["mism"]:
+                c = (clause_map or {}).get(m["clause"], m["clause"])
+                if c is not None:
+                    rep.violation(c, {**m, "channel": "R", "replay_module": "harness.checks.c04"})
+    for j in jobs:
+        rep.nontrivial(hashlib.sha1(jkey(list(j)).encode()).hexdigest())
+    return len(jobs)
+
+
 def format_vectors(rep, tier, wanted=None):
     """MC_C04's vectors replayed through the format mixins / codecs; clauses outside `wanted` are another property's business"""
     wd = tlc.scratch()
@@ -116,6 +175,9 @@ def format_vectors(rep, tier, wanted=None):
             rep.nontrivial(hashlib.sha1(jkey(rec[1:4]).encode()).hexdigest())
     for rec in r.printed[:: max(1, len(r.printed) // 3)][:3]:
         rep.sample({"channel": "R", "vector": rec})
+    if wanted is None:
+        discr_families(rep, r.printed)
+    return r
 
 
 def run(prop, tier, seed):
@@ -132,8 +194,11 @@ def run(prop, tier, seed):
 
 
 def replay(rec, path):
-    out = _run_group((rec["format"], rec["T"], [["fvec", rec["format"], rec["T"], rec["input"],
-                                                  rec["expected"] if rec["clause"] == "format-document" else ["dict", []]]]))
+    if rec.get("family") == "discriminated":
+        out = _run_discr((rec["format"], rec["base"], rec["T"], rec["hold"], rec["input"], rec["doc"], rec["order"]))
+    else:
+        out = _run_group((rec["format"], rec["T"], [["fvec", rec["format"], rec["T"], rec["input"],
+                                                      rec["expected"] if rec["clause"] == "format-document" else ["dict", []]]]))
     hit = [m for m in out["mism"] if m["clause"] == rec["clause"]]
     if hit:
         print("observed now:", json.dumps(hit[0]["actual"])[:500])
